@@ -161,6 +161,8 @@ static void Array_Push(var self, var obj);
 static void Array_Assign(var self, var obj) {
   struct Array* a = self;
 
+  if (obj is self) { return; }
+
   var type = implements_method(obj, Iter, iter_type) ? iter_type(obj) : Ref;
   
   Array_Clear(self);
